@@ -14,7 +14,7 @@ pub fn def() -> PropDef {
         job_level,
         run_job,
         replay,
-        rule: "configs: typing keys a (plain a, or a tap-hold 8: time-sensitive), b, c = lsft; record / stop / stop-truncate 1 / play keys; x replay-delay-behaviour {constant, recorded} x dynamic-macro-max-presses {128, 2}. Scenario: [optionally hold c before starting], start recording, EVERY physically consistent typing schedule of N events over a,b,c with gaps from {0,1,3,12} (quick N=4, thorough N=5), stop (plain stop / stop-truncate / pressing record again / pressing the record key of another macro id / the size limit), settle, play (once; twice; again while the replay runs), settle. Also: self-play inside the recording, nested play of a second macro, re-recording over the id; play-graph family: macros 1 and 2 recorded as EVERY sequence of <= L items (quick 2, thorough 3) over {tap a, tap b, play 1, play 2}, then each played: the replay terminates (at most L*L+2 key presses) and leaves nothing pressed, whatever cycles the play graph has. Relational oracle on the REAL code: the key output produced during the replay equals the output of feeding the same typed events (minus the stop key and the truncated tail, plus releases of the keys still down at stop) to a FRESH instance: same press order, same multiset of events (time-insensitive config: any pacing; time-sensitive config with recorded delays: same tap/hold decisions); nothing is held after the replay; a self-playing macro terminates; with max-presses 2 the recording ends by itself and the replay holds at most the limit.",
+        rule: "configs: typing keys a (plain a, or a tap-hold 8: time-sensitive), b, c = lsft; record / stop / stop-truncate 1 / play keys; x replay-delay-behaviour {constant, recorded} x dynamic-macro-max-presses {128, 2}. Scenario: [optionally hold c before starting], start recording, EVERY physically consistent typing schedule of N events over a,b,c with gaps from {0,1,3,12} (quick N=4, thorough N=5), stop (plain stop / stop-truncate / pressing record again / pressing the record key of another macro id / the size limit), settle, play (once; twice; again while the replay runs), settle. Also: self-play inside the recording, nested play of a second macro, re-recording over the id (also ended by a stop-truncate that asks for more than was recorded); play-graph family: macros 1 and 2 recorded as EVERY sequence of <= L items (quick 2, thorough 3) over {tap a, tap b, play 1, play 2}, then each played: the replay terminates (at most L*L+2 key presses) and leaves nothing pressed, whatever cycles the play graph has. Relational oracle on the REAL code: the key output produced during the replay equals the output of feeding the same typed events (minus the stop key and the truncated tail, plus releases of the keys still down at stop) to a FRESH instance: same press order, same multiset of events (time-insensitive config: any pacing; time-sensitive config with recorded delays: same tap/hold decisions); nothing is held after the replay; a self-playing macro terminates; with max-presses 2 the recording ends by itself and the replay holds at most the limit.",
         assumptions: &["typing gaps are chosen away from the tap-hold boundary (3 vs 12 against a timeout of 8) so that the one-event delay lag of the recorder cannot flip a decision", "stepper mode (every ms ticks); the blocked-ms recording finding of C07 is separate"],
         required_level,
         min_outcomes: 3,
@@ -408,6 +408,39 @@ fn specials(spec: &Spec, st: &mut Stats, found: &mut Vec<Violation>) {
                 st.outcome("re-record");
                 if presses != vec!["B".to_string()] {
                     push("re-record", format!("{}: after re-recording macro 1 as [b] the replay pressed {presses:?}", spec.tag()), &h, found);
+                }
+            }
+        }
+    }
+    // (3b) re-recording ended by stop-truncate with nothing (or less than asked) recorded: the id now holds
+    //      an empty macro; the old content must not be replayed
+    let mut h = vec![Ev::T(2)];
+    h.extend(tap("r"));
+    h.extend(tap("a"));
+    h.extend(tap("b"));
+    h.extend(tap("s"));
+    h.push(Ev::T(20));
+    // record key pressed and released within the same millisecond: its release arrives before the
+    // recording has started, so the recording is really empty when stop-truncate 1 is pressed
+    h.push(Ev::P(kc("r")));
+    h.push(Ev::R(kc("r")));
+    h.push(Ev::T(3));
+    h.extend(tap("t"));
+    h.push(Ev::T(20));
+    let n_play = h.len();
+    h.extend(tap("p"));
+    h.push(Ev::T(200));
+    st.evaluations += 1;
+    if let Ok(mut s) = Sim::new(&cfg) {
+        if s.run(&h[..n_play]).is_ok() {
+            let n0 = s.n_out();
+            if s.run(&h[n_play..]).is_ok() {
+                st.validated += 1;
+                let out = key_events(&crate::sim::parse_outputs(&s.raw_outputs()[n0..]));
+                let presses: Vec<String> = out.iter().filter(|x| x.0).map(|x| x.1.clone()).collect();
+                st.outcome("re-record-truncate-all");
+                if !presses.is_empty() {
+                    push("re-record-truncate-all", format!("{}: macro 1 = [a b] re-recorded as nothing (record, stop-truncate 1 at once): the replay pressed {presses:?}", spec.tag()), &h, found);
                 }
             }
         }
